@@ -138,6 +138,11 @@ def _r1(repo, L, m, ba):
     okl = len(outer) == 1 and norm(outer[0].iter).endswith(".scaffolds") and norm(inner.iter).endswith(".fragments()") and not any(isinstance(x, ast.Break) for x in walk_shallow(outer[0]))
     L.check(okl, "R1", fa.short + ":loops", "every fragment of every Pretext scaffold is looked up", "not every Pretext fragment is looked up (filtered loop or break)", fa.loc())
 
+    from .shared import check_row_iter
+
+    check_row_iter(repo, L, "R1", repo.cls("Scaffold"), "fragments", "Fragment", "row", "fragments() yields exactly the Fragment rows (recorder and lookup loops see every contig)", "Scaffold.fragments() does not yield every Fragment row: contigs escape the recorder / the lookup")
+    check_row_iter(repo, L, "R5", repo.cls("Scaffold"), "idx_fragments", "Fragment", "idx", "idx_fragments() yields every Fragment row with its index (re-add loop sees every contig)", "Scaffold.idx_fragments() does not yield every Fragment row with its own index: the re-add loop misses contigs")
+
     # recorder
     loops = [n for n in store.node.body if isinstance(n, ast.For)]
     sp = store.params()[1]
@@ -288,7 +293,7 @@ def _r2(repo, L, m, ba, ovr):
                         break
                 best = max(mins) if mins else 0
                 L.check(best >= 2, "R2", f"{f.short}:{norm(c)}", f"applied only when >= {best} results own the contig", f"premise '{norm(c)}' is applied under a guard admitting {best} owner(s): the contig is removed from its only result and, being recorded as found, is never re-added — sequence lost", f.loc(c), witness={"guards": mins})
-    L.floor("R2", "premise apply() sites", n_apply, 3)
+    L.floor("R2", "premise apply() sites", n_apply, 2)
     # no direct row surgery on overlap results outside OverlapResult
     for f in repo.functions.values():
         if f.module.name in ("tola.assembly.build_assembly", "tola.assembly.build_utils"):
@@ -332,7 +337,8 @@ def _r3(repo, L, m, ba):
             rec = [s for s in after if isinstance(s, ast.Expr) and isinstance(s.value, ast.Call) and isinstance(s.value.func, ast.Attribute) and s.value.func.attr == "append" and s.value.args and norm(s.value.args[0]) == who]
             if not rec:
                 ok, why = False, f"premise {who} is applied but not returned: the caller keeps the result in the contig's owner list and later cuts a row that is no longer there (or counts an owner that is gone)"
-    L.check(ok and n >= 3, "R3", mf.short, "every applied premise is appended to the returned list", why or f"only {n} apply sites", mf.loc())
+    L.check(ok, "R3", mf.short, "every applied premise is appended to the returned list", why, mf.loc())
+    L.floor("R3", "premise apply sites in make_fixes", n, 2)
     # at most one premise applied per contig per round
     loops = [x for x in mf.node.body if isinstance(x, ast.For)]
     ok1, why1 = len(loops) == 1, "loop over the contigs' premise lists not found"
@@ -561,7 +567,7 @@ def _r5(repo, L, m, ba):
                     if tt.endswith(f".get({fv}.key_tuple)") or tt.startswith(f"{fv}.key_tuplein"):
                         unseen = not v
         adds = [c for _, c in path_calls(p, lambda c: isinstance(c.func, ast.Attribute) and c.func.attr == "add_row" and c.args and is_name(c.args[0], fv))]
-        if p.status not in ("fall",):
+        if p.status not in ("fall", "continue"):
             okp, whyp = False, f"re-add loop leaves an iteration with {p.status}"
         if unseen is True:
             seen.add("unseen")
